@@ -29,8 +29,15 @@ def _top_forall(h):
     return z3.is_quantifier(h) and h.is_forall()
 
 
-def to_smt2(obl, with_axioms=True, small=False, inst=False):
+def to_smt2(obl, with_axioms=True, small=False, inst=False, ground=False):
     s = z3.Solver()
+    if ground:
+        # the quantifier-free hypotheses and the quantifier-free instances only
+        for h in obl.hyps + obl.instances():
+            if not symex._has_quantifier(h):
+                s.add(h)
+        s.add(z3.Not(obl.goal))
+        return s.to_smt2()
     # small: the hypotheses without the top-level universally quantified ones, plus their instances at the goal's
     # terms.  Dropping hypotheses is sound for a proof attempt.
     hyps = [x for x in obl.hyps if not _top_forall(x)] if small else list(obl.hyps)
@@ -253,10 +260,14 @@ def _work(job):
     model = r.get('model')
     if status == 'unknown':
         # 2. without the top-level universally quantified hypotheses, with their instances at the goal's terms
-        small_text = to_smt2(o, small=True)
-        r0 = _z3_check(small_text, 10000, False)
-        r0['solver'] += ' (instances only)'
+        r0 = _z3_check(to_smt2(o, ground=True), 5000, False)
+        r0['solver'] += ' (ground instances only)'
         res['runs'].append(r0)
+        if r0['status'] != 'unsat':
+            small_text = to_smt2(o, small=True)
+            r0 = _z3_check(small_text, 10000, False)
+            r0['solver'] += ' (instances only)'
+            res['runs'].append(r0)
         if r0['status'] != 'unsat':
             r0 = _cvc5_check(small_text, 8000)
             r0['solver'] += ' (instances only)'
